@@ -237,6 +237,17 @@ def e2e_zero_async(EP, d):
         import re as _re
         m = _re.match(r"P(\d+)$", c["head"])
         return bool(m and provs[int(m.group(1))]['a'])
+    # calls of the injector's own flow that are emitted before a goroutine is started run to completion before the
+    # providers of that goroutine can be entered
+    import re as _re2
+    for m in _re2.finditer(r"goroutine-(\d+)-spawned-after-(\d+)-main-calls", EP.get("odd", "") or ""):
+        g, n = int(m.group(1)), int(m.group(2))
+        early = [c for c in EP["threads"][0] if not c["head"].startswith("F")][:n]
+        if g < len(EP["threads"]):
+            late = [c for c in EP["threads"][g] if is_async(c) and not c["args"]]
+            for c in early:
+                if is_async(c) and not c["args"] and late:
+                    bad.append("input-free Async provider %s runs on the injector's own flow before the goroutine of input-free Async provider %s is started" % (c["tok"], late[0]["tok"]))
     for t, th in enumerate(EP["threads"]):
         for i, c in enumerate(th):
             if is_async(c) and not c["args"]:
